@@ -746,13 +746,15 @@ Quiesce(ngor, nsrv, unreadS, unreadC) ==
   /\ G("reg", cregN >= 0 => cregN = Cardinality(creg))
   /\ G("reg", ~Stuck => \A c \in DOMAIN calls : ClientFinished(c) /\ calls[c].id # "" => calls[c].id \notin creg)
   /\ G("reg", ~Stuck => \A h \in DOMAIN hnds : hnds[h].ret /\ hnds[h].kind # "unary" /\ Get(hOf, hnds[h].id, 0) = h => hnds[h].id \notin sreg)
-  /\ G("reg", (Idle /\ ~Stuck) => creg = {} /\ sreg = {} /\ (cfg.ncli = 1 => ngor <= base))
+  /\ G("reg", (Idle /\ ~Stuck) => creg = {} /\ sreg = {} /\ ((cfg.ncli = 1 /\ base >= 0) => ngor <= base))
+  \* (topologies whose connections come into being with the first envelope: the idle level is learnt at the first idle point)
+  /\ base' = IF base < 0 /\ Idle /\ ~Stuck THEN ngor ELSE base
   \* once Serve has returned and the handlers have returned, no goroutine of that connection remains (C10),
   \* even if the transport was stuck: a blocked write returns when the connection context is done
   /\ G("serve", ("serveret" \in flt /\ cfg.ncli = 1 /\ live = {} /\ parked = 0) => nsrv = 0)
   \* when the caller's side of a stream is over on a healthy connection, the server's side does not
   \* sit in a blocking call for ever: it has been told (C14, C07)
-  /\ G("reg", (~Stuck /\ ~CliDown /\ ~SrvDown) =>
+  /\ G("letgo", (~Stuck /\ ~CliDown /\ ~SrvDown) =>
         \A v \in live : (v.kind # "unary" /\ v.in \in {"recv", "ctxwait"} /\ v.h \in DOMAIN hnds) =>
            ~\E c \in DOMAIN calls : /\ calls[c].id = hnds[v.h].id /\ calls[c].kind # "unary"
                                     /\ ClientFinished(c) /\ Cin(calls[c].id).close = ""
@@ -761,7 +763,7 @@ Quiesce(ngor, nsrv, unreadS, unreadC) ==
   /\ sin' = [id \in DOMAIN sin |-> IF sin[id].st = "closing" /\ ~Stuck THEN [sin[id] EXCEPT !.st = "dead"] ELSE sin[id]]
   /\ pend' = {} /\ live' = {} /\ cregN' = -1
   /\ UNCHANGED <<cfg, phase, calls, byId, hi, gaps, cw, nSR, sw, nCR, cin, preq, hnds, hOf,
-                 flt, creg, sreg, base, parked>>
+                 flt, creg, sreg, parked>>
 
 Pend(c, op) == /\ pend' = pend \cup {[c |-> c, op |-> op]}
                /\ UNCHANGED <<cfg, phase, calls, byId, hi, gaps, cw, nSR, sw, nCR, cin, sin, preq, hnds, hOf,
